@@ -660,6 +660,38 @@ CHECKS["C05"].update(
               "correspondence (terms, opset tables, side conditions) by vm_compute; checker and execution oracle "
               "(ReferenceEvaluator/onnxruntime) with replays, reused pass objects, multi-opset histories, targeted templates")
 
+CHECKS["C12"].update(
+    text="Coq proof of the seven C12 theorems (none partial) plus frame (C12_frame: a sort of graph t anywhere in the forest "
+         "leaves every graph outside t's scope exactly as it was, whatever the outcome), write-back consistency through C11's "
+         "box-level linked-set model (C12_writeback_views_agree: forward, backward, len, getitem and membership all describe "
+         "the new order) and finiteness (C12_no_self_nesting), about an executable model proved EQUAL to a fail-closed per-run "
+         "translation of Graph.sort's source: the Kahn loop with heapq by contract (C12_source_is_model) and the predecessor-"
+         "collection loop (C12_collection_is_model). Function.sort, the iterator step and the pass are pinned. A Coq-decided "
+         "correspondence on whole forests ties it further: single sorts, edit/sort histories with position-preserving moves, "
+         "sorts inside active journals, shared-subgraph inputs, nested targets including function bodies, hash-seed and "
+         "allocation reruns.",
+    note=TRUST + "Modelled, not verified: heapq (contract: pop returns the smallest key), CPython object identity/hash order "
+         "(reruns under other PYTHONHASHSEED). wf excludes only one Graph under two attributes (covered by correspondence; "
+         "spurious ValueError, atomic) and a self-nested graph (documented exclusion, probe). Inputs without producer are "
+         "identified with None inputs. C12's Property.v imports C11's linked-set model.",
+    technique="Coq proof over a model proved equal to the per-run translation of Graph.sort (Kahn loop + predecessor "
+              "collection); vm_compute correspondence on whole forests")
+CHECKS["C10"].update(
+    text="Containment, fail-closed and load theorems about an executable fs/posixpath/kernel model that is proved EQUAL to a "
+         "per-run statement-by-statement translation of ExternalTensor._check_path_containment "
+         "(C10_check_model_equals_source), of the `path` property and of load()'s base_dir expression "
+         "(C10_path_and_load_base_equal_source); C10_contained_source_check restates containment for the translated check. "
+         "The call structure of every read method is extracted per run and a checker proved sound shows every open dominated "
+         "by a passing check; load()'s straight-line structure, set_base_dir and the base_dir setter are shape-pinned; a "
+         "complete model of load()'s tensor traversal (every tensor position, base independent of external_data entries). "
+         "Tied by differential execution on generated directory trees, world-changing histories, load spellings, nested "
+         "models and per-call event traces evaluated in Coq; the oracle is independent of os.path.realpath.",
+    note=TRUST + "Modelled, not verified: TOCTOU between check and open, non-POSIX normcase, the kernel's symlink nesting bound "
+         "(a universally quantified parameter of every theorem), permissions, FIFOs/devices, mmap. _all_tensors / "
+         "RecursiveGraphIterator are hand-modelled (tied by the generated-model correspondence), not translated.",
+    technique="Fail-closed ast->Gallina translation (check, path, load base, call structure) + equivalence and containment "
+              "theorems in Coq + differential execution on generated worlds, histories, nested models and per-call traces")
+
 
 def main():
     props = [json.loads(l) for l in open(os.path.join(VERIF, "properties.jsonl"))]
